@@ -96,3 +96,38 @@ Definition envcfg_append (c : call) : bool :=
 
 Definition call_class (c : call) : N :=
   if negb (wf_call c) then 9%N else if envcfg_append c then 1%N else 0%N.
+
+(* ---- calls with a subcommand (Lib/C04Base.v scall) ---------------------------------------------------
+   The modelled space: parse_args with the subcommand token on the command line; the flattened call
+   (keys of both levels) is well-formed; the parent's default config files, environment config and
+   environment variables and the options before the token address the parent's own keys; no own key
+   lives below NAME; a `--cfg` document of the parent may carry plain assignments (no "key+") for the
+   subcommand's keys. *)
+Definition starts_with (nm : name) (k : tpath) : bool :=
+  match k with a :: _ => name_eqb a nm | [] => false end.
+
+Definition parent_doc_ok (nm : name) (d : doc) : bool :=
+  forallb (fun a => negb (starts_with nm (fst a)) || match snd a with Set_ _ => true | _ => false end) d.
+
+Definition wf_scall (sc : scall) : bool :=
+  let c := s_parent sc in
+  let pown := c_parser c in
+  let nm := s_name sc in
+  wf_call (flat_call sc)
+  && forallb (fun d => negb (starts_with nm (d_key d))) pown
+  && forallb (fun m => forallb (fun nd => wf_doc pown (snd nd)) m) (c_patterns c)
+  && match c_envcfg c with Some d => wf_doc pown d | None => true end
+  && wf_doc pown (map (fun kv => (fst kv, Set_ (snd kv))) (c_envvars c))
+  && match c_entry c with
+     | EArgs argv =>
+         forallb (fun a => match a with
+                           | AAsg x => match find_decl pown (fst x) with Some _ => true | None => false end
+                           | ACfg d => parent_doc_ok nm d
+                           end) argv
+     | _ => false
+     end.
+
+(* class 2: a call with a subcommand — inside the modelled space, judged case by case against the
+   documented fold (Spec flat_call); the precedence theorem does not (yet) cover pipeline_sub *)
+Definition scall_class (sc : scall) : N :=
+  if negb (wf_scall sc) then 9%N else if envcfg_append (flat_call sc) then 1%N else 2%N.
